@@ -648,28 +648,35 @@ fn shrink_spec(s: &VerifierSpec) -> Vec<VerifierSpec> {
 fn shrink_event(op: &Op) -> Vec<Op> {
     let mut out = vec![];
     match op {
-        Op::CoreIssue { proto, key, nonce_hex, payload, footer, assertion, out: o, order } => {
+        Op::CoreIssue { proto, key, nonce_hex, payload, footer, assertion, out: o, order, rebuild } => {
             for p in shrink_payload(payload) {
-                out.push(Op::CoreIssue { proto: *proto, key: *key, nonce_hex: nonce_hex.clone(), payload: p, footer: footer.clone(), assertion: assertion.clone(), out: *o, order: *order });
+                out.push(Op::CoreIssue { proto: *proto, key: *key, nonce_hex: nonce_hex.clone(), payload: p, footer: footer.clone(), assertion: assertion.clone(), out: *o, order: *order, rebuild: *rebuild });
             }
             for f in shrink_opt(footer) {
-                out.push(Op::CoreIssue { proto: *proto, key: *key, nonce_hex: nonce_hex.clone(), payload: payload.clone(), footer: f, assertion: assertion.clone(), out: *o, order: *order });
+                out.push(Op::CoreIssue { proto: *proto, key: *key, nonce_hex: nonce_hex.clone(), payload: payload.clone(), footer: f, assertion: assertion.clone(), out: *o, order: *order, rebuild: *rebuild });
             }
             for a in shrink_opt(assertion) {
-                out.push(Op::CoreIssue { proto: *proto, key: *key, nonce_hex: nonce_hex.clone(), payload: payload.clone(), footer: footer.clone(), assertion: a, out: *o, order: *order });
+                out.push(Op::CoreIssue { proto: *proto, key: *key, nonce_hex: nonce_hex.clone(), payload: payload.clone(), footer: footer.clone(), assertion: a, out: *o, order: *order, rebuild: *rebuild });
             }
             if *order != 0 {
-                out.push(Op::CoreIssue { proto: *proto, key: *key, nonce_hex: nonce_hex.clone(), payload: payload.clone(), footer: footer.clone(), assertion: assertion.clone(), out: *o, order: 0 });
+                out.push(Op::CoreIssue { proto: *proto, key: *key, nonce_hex: nonce_hex.clone(), payload: payload.clone(), footer: footer.clone(), assertion: assertion.clone(), out: *o, order: 0, rebuild: false });
             }
             let zeros = "00".repeat(nonce_hex.len() / 2);
             if *nonce_hex != zeros {
-                out.push(Op::CoreIssue { proto: *proto, key: *key, nonce_hex: zeros, payload: payload.clone(), footer: footer.clone(), assertion: assertion.clone(), out: *o, order: *order });
+                out.push(Op::CoreIssue { proto: *proto, key: *key, nonce_hex: zeros, payload: payload.clone(), footer: footer.clone(), assertion: assertion.clone(), out: *o, order: *order, rebuild: *rebuild });
             }
         }
         Op::BuilderOp { b, op } => match op {
             BOp::SetClaim(c) => {
                 for sc in shrink_claim(c) {
                     out.push(Op::BuilderOp { b: *b, op: BOp::SetClaim(sc) });
+                }
+            }
+            BOp::ExtendClaims(m) => {
+                for k in m.keys() {
+                    let mut c = m.clone();
+                    c.remove(k);
+                    out.push(Op::BuilderOp { b: *b, op: BOp::ExtendClaims(c) });
                 }
             }
             BOp::SetFooter(f) => {
